@@ -589,6 +589,7 @@ def mon_c03(script, res):
     due_restart = [None] * n      # pass index by which an automatic restart must have happened
     due_leave = [None] * n        # (pass, epoch): in BACKOFF with the retry delay over when that pass began
     epoch = [0] * n               # number of state changes seen
+    fails = [0] * n               # failed start attempts in a row, counted here (never more than the code's own counter)
     down = False
     rpc_window = None             # kind of the request being executed
     passno = -1
@@ -621,6 +622,7 @@ def mon_c03(script, res):
             rpc_window = e[2]
         elif k == 'life':
             due_leave = [None] * n
+            fails = [0] * n
         elif k == 'endacts':
             rpc_window = None
         elif k == 'sup' and e[1] == 2:
@@ -649,6 +651,12 @@ def mon_c03(script, res):
                 elif prev == 30:
                     explained = True
                     bs = backoff_since[i]
+                    if fails[i] > c['startretries']:
+                        return ('p%d retried although %d start attempts in a row had failed (startretries=%d; the attempts '
+                                'are counted from the notifications, whatever tries: says)' % (i, fails[i], c['startretries']))
+                    if bs is not None and not (now > bs[0] + fails[i] * U):
+                        return ('p%d retry after %d failed attempts in a row at reading %s, not later than %d seconds after '
+                                'the failure at %s' % (i, fails[i], now, fails[i], bs[0]))
                     if bs is not None:
                         if bs[1] > c['startretries']:
                             return 'p%d retried although %d start attempts already failed (startretries=%d)' % (i, bs[1], c['startretries'])
@@ -690,6 +698,9 @@ def mon_c03(script, res):
                     return 'p%d reported RUNNING after %s ticks, not longer than startsecs' % (i, life)
             if to == 30:
                 backoff_since[i] = (now, e[4])
+                fails[i] += 1
+            if to in (20, 200, 0, 100):
+                fails[i] = 0
             if to == 200 and frm == 30:
                 bs = backoff_since[i]
                 if bs is not None and bs[1] <= c['startretries'] and not down and not mood_low:
